@@ -168,7 +168,7 @@ fn do_fmt(
         "fill_right" => fmt_flagset!(d, w, p, "{:*>}", "{:*>w$}", "{:*>.p$}", "{:*>w$.p$}"),
         "alt" => fmt_flagset!(d, w, p, "{:#}", "{:#w$}", "{:#.p$}", "{:#w$.p$}"),
         "fill_utf8" => fmt_flagset!(d, w, p, "{:é>}", "{:é>w$}", "{:é>.p$}", "{:é>w$.p$}"),
-        "plus_left" => fmt_flagset!(d, w, p, "{:+<}", "{:<+w$}", "{:<+.p$}", "{:<+w$.p$}"),
+        "plus_left" => fmt_flagset!(d, w, p, "{:<+}", "{:<+w$}", "{:<+.p$}", "{:<+w$.p$}"),
         "zero_left" => fmt_flagset!(d, w, p, "{:<0}", "{:<0w$}", "{:<0.p$}", "{:<0w$.p$}"),
         _ => return Err(format!("unknown flag set {}", flags)),
     })
